@@ -231,7 +231,7 @@ func genWorld(t *rapid.T) world.World {
 	}
 	nreg := rapid.IntRange(1, 2).Draw(t, "nreg")
 	for k := 0; k < nreg; k++ {
-		rp := world.RegistryPkg{Addr: []string{"example.com/ns/r0/aws", "ns/r1/null"}[k]}
+		rp := world.RegistryPkg{Addr: []string{"example.com/ns/r0/aws", "ns/r0/aws"}[k]} // same namespace/name/system on two hosts
 		vs := rapid.SliceOfNDistinct(rapid.SampledFrom(offered), 1, 8, func(s string) string { return s }).Draw(t, "offered")
 		for j, v := range vs {
 			if rapid.IntRange(0, 7).Draw(t, "twin?") == 0 {
